@@ -173,6 +173,10 @@ package profile
 
 //@ func ParsePrefixes(y *y.Yaml) (ProfileContext, error)
 //@   requires y != nil && deref(y).data != nil
+//@   verify [C15,C02]
+//@   ensures [C15:namespaces-as-written,C02] result1 == nil ==> (forall k string :: has(result0, k) ==> result0[k] == deref(asref(*yaml.Node, yamlValueFor(ref(deref(y).data), box(string, k)))).Value)
+//@   loop 1 /* for _, k := range ks */
+//@     invariant [C15,C02] forall q string :: has(ctx, q) ==> ctx[q] == deref(asref(*yaml.Node, yamlValueFor(ref(deref(y).data), box(string, q)))).Value
 
 //@ func parseExpressionValue(variable Variable, data *y.Yaml, varGenerator *VarGenerator) (Rule, error)
 //@   requires [C17:counter] deref(varGenerator).counter >= 0
